@@ -184,14 +184,19 @@ def r5_archive(ctx):
     comp = F.method("mahf::components::archive::ElitistArchiveIntoPopulation", "execute", "mahf::components::Component")
     bad = []
     m = 0
-    for ne in range(0, 3):
+    import itertools
+    # the archive may hold equal individuals (its update extends from a population that contains re-inserted elitists):
+    # elitist lists over 0..3 entries with every repetition pattern
+    elit_lists = sorted({tuple(ids) for n_ in range(0, 4) for ids in itertools.product(range(n_), repeat=n_) if list(ids) == sorted(ids) and set(ids) == set(range(len(set(ids))))})
+    for ids in elit_lists:
+        ne = len(set(ids))
         for npop in range(0, 3):
             # presence pattern: which elitists are already in the population (identical solution+objective)
             for present in range(0, 1 << ne):
                 pres = [i for i in range(ne) if present >> i & 1]
                 if len(pres) > npop:
                     continue
-                elit = [ind("e%d" % i) for i in range(ne)]
+                elit = [ind("e%d" % i) for i in ids]
                 pop = [ind("e%d" % i) for i in pres] + [ind("p%d" % j) for j in range(npop - len(pres))]
                 ranks = {}
                 for i in range(ne):
@@ -217,16 +222,16 @@ def r5_archive(ctx):
                 m += 1
                 for p in it.run():
                     if p.end != "return":
-                        bad.append((ne, npop, pres, "does not return (%s)" % p.end))
+                        bad.append((list(ids), npop, pres, "does not return (%s)" % p.end))
                         continue
                     after = [otag(x) for x in p.mstate["heap"].get("pop", ())]
                     want = [otag(x) for x in pop] + ["o:e%d" % i for i in range(ne) if i not in pres]
                     if sorted(after) != sorted(want) or after[:len(pop)] != [otag(x) for x in pop]:
-                        bad.append((ne, npop, pres, "leaves %s; expected the population plus exactly the absent elitists: %s" % (after, want)))
+                        bad.append((list(ids), npop, pres, "leaves %s; expected the population plus each absent elitist exactly once: %s" % (after, want)))
                     if [otag(x) for x in p.mstate["heap"].get("arch", ())] != [otag(x) for x in elit]:
-                        bad.append((ne, npop, pres, "changes the archive"))
+                        bad.append((list(ids), npop, pres, "changes the archive"))
     ctx.check(not bad, "C07.R5", comp.key, "reinsert-without-duplicates",
-              "%s elitists, population of %s of which elitists %s are already members: re-insertion %s" % (bad[0] if bad else ("", "", "", "")), detail="%d presence patterns" % m, loc=comp.loc())
+              "archive holding elitists %s (equal numbers = equal individuals), population of %s of which elitists %s are already members: re-insertion %s" % (bad[0] if bad else ("", "", "", "")), detail="%d presence patterns" % m, loc=comp.loc())
     ctx.count("archive_reinsertion_scenarios", m)
     # the update component shows the current population with its own capacity
     up = F.method("mahf::components::archive::ElitistArchiveUpdate", "execute", "mahf::components::Component")
